@@ -79,7 +79,7 @@ Definition show_sres (r : sres) : text :=
   | SOk off b => s2t "OK off=" ++ show_N off ++ s2t " x" ++ hex b
   | SErr EMem => s2t "ERR mem"
   | SErr ECustom => s2t "ERR custom"
-  | SErr EPayload => s2t "ERR payload"
+  | SErr EPay => s2t "ERR payload"
   end.
 
 (* verif::reader_run *)
